@@ -7,11 +7,17 @@ From Coq Require Import ZArith List.
 From Segno Require Import Base.PyLite Ref.Geometry Ref.MaskCond Ref.Bch.
 From Segno Require Import Ref.Classify Ref.Decoder Ref.Spec.
 From Segno Require Import Model.Bits Model.Segment Model.Version Model.Stream Model.Matrix Model.Encode Model.Sequence Model.Args.
+From Segno Require Import Ref.Pixel Model.Iter Model.Color Model.TextFmt Ref.TextFmtReader Model.Png Ref.PngReader Ref.NetpbmReader Model.Helpers Ref.HelpersReader Model.Route.
 Cd "build/ocaml".
-Extraction "model.ml" Classify.classify_matrix Classify.kf_fmt_col Classify.align_aux_matrix
+Separate Extraction Classify.classify_matrix Classify.kf_fmt_col Classify.align_aux_matrix
   Encode.encode Encode.encode_core Args.encode_args Args.normalize_version Args.normalize_mode Args.normalize_mask Args.normalize_errorlevel Sequence.encode_sequence Sequence.chunk_overflows Sequence.divide_into_chunks Segment.make_segment Segment.find_mode Version.find_version Version.boost_error_level
   Version.bit_length_with_overhead Stream.make_final_message Matrix.mask_scores Matrix.evaluate_micro_mask
   Decoder.decode_symbol Decoder.read_blocks Decoder.read_format Decoder.read_stream
   Spec.c02_check Spec.c03_check Spec.c13_check Spec.candidate_scores Spec.iso_best_mask Spec.spec_mode
-  Spec.spec_version Spec.spec_boost Spec.kf_pad_aligned Spec.iso_penalty Spec.iso_micro_score Spec.spec_bits Spec.function_pattern_errors.
+  Spec.spec_version Spec.spec_boost Spec.kf_pad_aligned Spec.iso_penalty Spec.iso_micro_score Spec.spec_bits Spec.function_pattern_errors
+  Pixel.pixel_grid Iter.matrix_iter Iter.iter_verbose_rows Iter.matrix_to_lines Color.color_to_rgba Color.make_colormap
+  TextFmt.write_txt TextFmt.write_xpm TextFmt.write_xbm TextFmt.write_terminal TextFmt.write_terminal_compact
+  TextFmtReader.read_txt TextFmtReader.read_xbm TextFmtReader.read_xpm TextFmtReader.read_terminal TextFmtReader.read_terminal_compact
+  Png.png_parts Png.crc32 PngReader.read_png NetpbmReader.read_pbm NetpbmReader.read_pam_full NetpbmReader.read_ppm_full
+  Route.resolve Route.sequence_filename Route.build_config Route.default_config.
 Cd "../..".
